@@ -13,7 +13,7 @@
 (* The (large) input of a build never enters the state: the state is the   *)
 (* index `cur` of the build line.                                          *)
 (***************************************************************************)
-EXTENDS VBuild, Json, IOUtils, TLC
+EXTENDS VBuild, Json, IOUtils, TLC, SequencesExt
 
 Rec == ndJsonDeserialize(IOEnv.TRACE)
 
@@ -32,10 +32,9 @@ CfgOf(b) == [n |-> b.n, dups |-> HasDups(b), checkDups |-> b.check_dups,
              filter |-> b.kind = "filter", hint |-> b.hint, vn |-> b.vals.vn,
              faults |-> SeqToSet(b.faults)]
 
-RECURSIVE RunFrom(_, _, _, _)
-RunFrom(s, c, evs, k) ==
-    IF k > Len(evs) \/ s.pc = "rejected" THEN s
-    ELSE RunFrom(Step(s, c, evs[k]), c, evs, k + 1)
+\* the state after the recorded hook events (a rejection is absorbing)
+RunFrom(s0, c, evs, k) ==
+    FoldLeft(LAMBDA s, e : IF s.pc = "rejected" THEN s ELSE Step(s, c, e), s0, evs)
 
 FaultStr(f) ==
     IF f.kind = "rewind" THEN f.src \o ":rewind:" \o ToString(f.pass)
